@@ -44,5 +44,22 @@ CHECKS = {
           "(HttpRpc never reads an undeclared body).",
   'technique': 'Coq proof over a trace model of the WSGI layer + source-generated reader expressions + differential correspondence',
  },
+ 'C17': {
+  'text': "Theorems that the parser configuration REGENERATED from the source on every run (XmlDocument.__init__ defaults, "
+          "the parser_kwargs dict, the parser argument and the try/except around every lxml parse call reachable from a "
+          "request in xml.py, soap11.py, soap12.py, mime.py, _inbase.py) is safe at every request site, and that under a "
+          "safe configuration, for ALL documents and ALL file-system/network contents, the modelled libxml2 parse opens "
+          "nothing, returns a result independent of the outside world, keeps the request's own tree verbatim (no entity "
+          "expanded into element content, no DTD defaults), accepts depth <= 256 only, and every rejection (bombs, "
+          "nesting, loops) is a Client.XMLSyntaxError fault; each safety clause is shown necessary by a witness. The "
+          "libxml2 option model is tied to the real parser by differential evaluation under 15 configurations, and a "
+          "direct oracle watches canary files (inotify), a localhost socket and canary strings on 7 request routes.",
+  'design_ref': 'DESIGN.md section 6 (C17)',
+  'note': TB + "libxml2/lxml option semantics are modelled (coq/C17/Xml.v) and compared with the real parser, not verified; "
+          "bounded time/memory is measured on a subprocess, not proved; network fetches cannot be attempted by this "
+          "sandbox's libxml2 at all, so no_network is covered by the proof obligation only. One finding family listed: "
+          "internal entities referenced in ATTRIBUTE values are substituted by libxml2 on read.",
+  'technique': 'Coq proof over source-generated parser configuration + libxml2 option model; differential correspondence; canary oracle',
+ },
 }
 NOT_APPLICABLE = {}
